@@ -297,7 +297,17 @@ POISON_KINDS = {
                                              "INSERT INTO zz_pi (name, active) VALUES ('n', 1)",
                                              "CREATE INDEX zz_pii ON zz_pi (name) where active = 1"], False, False),
     "inspect-fails:quote-in-table-name": (["CREATE TABLE \"zz_p'q\" (a int)"], False, False),
+    # addIndexes on a tree that finds the keyword case-insensitively (repo 0b3e6b8) but still wants white space
+    # after it: SQLite accepts WHERE(…), the inspection answers "missing partial WHERE clause"
+    "inspect-fails:index-where-no-space": (["CREATE TABLE zz_pj (id integer PRIMARY KEY, name text, active int)",
+                                            "INSERT INTO zz_pj (name, active) VALUES ('n', 1)",
+                                            "CREATE INDEX zz_pjj ON zz_pj (name) WHERE(active = 1)"], False, False),
 }
+# the inspection stage each shape is meant to fail in (fixes to the inspection may make a shape succeed: the
+# monitor counts which stages were still reached and c14.py refuses to call a run silent without all three)
+POISON_STAGE = {"inspect-fails:fk-ref-column": "fks", "inspect-fails:type-size": "columns", "inspect-fails:type-scale": "columns",
+                "inspect-fails:quote-in-table-name": "columns", "inspect-fails:index-lowercase-where": "indexes",
+                "inspect-fails:index-where-no-space": "indexes"}
 TX_KINDS.update(POISON_KINDS)
 
 
